@@ -557,34 +557,50 @@ def r4(ctx, prog):
         "source.ra", ast.Add, "360")
     ctx.check("C03-R4", rc, "RA wrap adds 360", okw,
               "negative RA must be wrapped by +360", node=w)
-    # pa_limit post-condition
+    # pa_limit post-condition: the function is interpreted (our evaluator,
+    # not python) over angles on both sides of each boundary
+    from .. import concrete
     pl = prog.func("source_finder.pa_limit")
-    whiles = [s for s in pl.node.body if isinstance(s, ast.While)]
     p = pl.params[0]
-    tests = sorted(norm(s.test).replace(" ", "") for s in whiles)
-    steps = {norm(s.test).replace(" ", ""): as_update(s.body[0])
-             for s in whiles if len(s.body) == 1}
-    ok = tests == sorted(["%s<=-90" % p, "%s>90" % p]) and \
-        steps.get("%s<=-90" % p) == (p, ast.Add, "180") and \
-        steps.get("%s>90" % p) == (p, ast.Sub, "180")
-    ctx.check("C03-R4", pl, "pa_limit loops %s" % steps, ok,
-              "the negated loop guards must give -90 < pa <= 90 with steps "
-              "of 180", node=pl.node)
+    bad = []
+    samples = [-450.0, -270.0, -180.0, -90.5, -90.0, -89.5, -45.0, 0.0, 45.0,
+               89.5, 90.0, 90.5, 180.0, 269.5, 270.0, 450.0, 810.0]
+    for v in samples:
+        try:
+            out, _ = concrete.call(pl.node, {p: v})
+        except concrete.Unknown as e:
+            raise AnalysisError("C03-R4: cannot interpret pa_limit: %s" % e)
+        if out is None or not (-90 < out <= 90) or \
+                abs((out - v) / 180.0 - round((out - v) / 180.0)) > 1e-12:
+            bad.append((v, out))
+    ctx.check("C03-R4", pl, "pa_limit maps every sample angle into "
+              "(-90, 90] by multiples of 180", not bad,
+              "pa_limit(%s) gives %s" % (bad[0] if bad else ("", "")),
+              node=pl.node)
     fx = prog.func("source_finder.fix_shape")
     src = fx.params[0]
-    iff = [s for s in fx.node.body if isinstance(s, ast.If)]
-    ok = len(iff) == 1 and norm(iff[0].test).replace(" ", "") == \
-        "%s.a<%s.b" % (src, src)
-    if ok:
-        txt = [norm(s).replace(" ", "") for s in iff[0].body]
-        ok = "%s.a,%s.b=(%s.b,%s.a)" % (src, src, src, src) in txt and \
-            any(as_update(s) == ("%s.pa" % src, ast.Add, "90")
-                for s in iff[0].body) and \
-            "%s.err_a,%s.err_b=(%s.err_b,%s.err_a)" % (src, src, src, src) \
-            in txt
+    bad = []
+    for a, b in ((1.0, 2.0), (2.0, 1.0), (1.5, 1.5)):
+        env = {src + ".a": a, src + ".b": b, src + ".pa": 10.0,
+               src + ".err_a": 0.1 * a, src + ".err_b": 0.1 * b}
+        try:
+            concrete.call(fx.node, env)
+        except concrete.Unknown as e:
+            raise AnalysisError("C03-R4: cannot interpret fix_shape: %s" % e)
+        if a < b:
+            want = {src + ".a": b, src + ".b": a, src + ".pa": 100.0,
+                    src + ".err_a": 0.1 * b, src + ".err_b": 0.1 * a}
+        else:
+            want = dict(env0 := {src + ".a": a, src + ".b": b,
+                                 src + ".pa": 10.0, src + ".err_a": 0.1 * a,
+                                 src + ".err_b": 0.1 * b})
+        got = {k: env.get(k) for k in want}
+        if got != want:
+            bad.append(((a, b), got))
     ctx.check("C03-R4", fx, "fix_shape swaps a/b, err_a/err_b and adds 90",
-              ok, "a<b must swap the axes and their errors and rotate pa by "
-              "90 deg", node=fx.node)
+              not bad, "a<b must swap the axes and their errors and rotate pa "
+              "by 90 deg, a>=b must change nothing: %s" %
+              (bad[0] if bad else "",), node=fx.node)
 
 
 SIGNED_FIELDS = {"peak_flux", "int_flux", "dec", "background", "pa",
